@@ -85,8 +85,13 @@ def signature(chk, e):
         u = r["hops"][0]["u"]
         cls = "shape:scheme=%s,ui=%d,port=%s,host=%s,dot=%d,up=%d;%s" % (u["scheme"], u["ui"], u["port"], u["h"]["k"], u["dot"], u["up"], flags)
     else:
-        cls = "chain:len=%d,contacted=%d;%s" % (len(r["hops"]), e["obs"]["n"], flags)
-    if e.get("mode") == "dispatch" and chk.startswith("dlq"):
+        # the hop the check is about: the last one contacted (sent_to_refused_hop) or the first one not contacted
+        n = e["obs"]["n"]
+        k = n - 1 if chk == "sent_to_refused_hop" else n
+        k = max(0, min(k, len(r["hops"]) - 1))
+        h = r["hops"][k]
+        cls = "chain:hop=%s:%s,first=%d;https=%d,redir=%d,rebind=%d" % (h["u"]["scheme"], hop_desc(h), k == 0, pol["https"], pol["redir"], pol["rebind"])
+    if e.get("mode") in ("dispatch", "prod") and chk.startswith("dlq"):
         cls = "dispatcher;" + cls
     return "egress/%s/%s" % (chk, cls)
 
@@ -101,8 +106,8 @@ def describe(chk, e):
     if res:
         s += " resolver {" + "; ".join(res) + "}"
     s += " observed: %d request(s) %s result %s %s" % (o["n"], [x["url"] for x in o["sent"]], o["cls"], o["err"])
-    if e.get("mode") == "dispatch":
-        s += " dispatcher: %s" % json.dumps(e["disp"])
+    if e.get("mode") in ("dispatch", "prod"):
+        s += " %s: %s" % ("dispatcher" if e["mode"] == "dispatch" else "production wiring (app.VerifBoot)", json.dumps(e["disp"]))
     return s
 
 
@@ -110,7 +115,7 @@ def rank(e):
     """Which event of a signature is shown: the simplest (literal host, few rules, direct mode, short chain)."""
     r = e["row"]
     return (len(r["hops"]), len(r["pol"]["allow"]) + len(r["pol"]["deny"]), 0 if r["hops"][0]["u"]["h"]["k"] == "lit" else 1,
-            0 if e["mode"] == "direct" else 1, e["conc"]["variant"], e.get("id", 0))
+            {"direct": 0, "dispatch": 1}.get(e["mode"], 2), e["conc"]["variant"], e.get("id", 0))
 
 
 def reexec(e, out):
@@ -118,6 +123,8 @@ def reexec(e, out):
             "-seed", str(e.get("seed", 1)), "-id", str(e.get("id", 0)), "-out", out]
     if e.get("mode") == "dispatch":
         args.append("-dispatch")
+    if e.get("mode") == "prod":
+        args.append("-prod")
     vf.tool("hkv-egress", args, timeout=120)
 
 
@@ -144,45 +151,57 @@ def non_vacuity(ctx, c):
         keys += ["chain/len=%d/contacted=%d" % (ln, k) for k in range(0, ln + 1)]
     keys += ["chain/redir=false/cls=redirect", "chain/redir=true/cls=ok", "chain/redir=true/cls=policy_denied", "chain/redir=true/cls=error",
              "dispatch/dead/policy_denied", "dispatch/policy_denied/zero_requests", "dispatch/delivered/", "dispatch/dead/no_retry",
-             "dispatch/dead/max_retries", "mode/direct", "mode/dispatch", "fam/shape", "fam/addr", "fam/rules", "fam/chain"]
+             "dispatch/dead/max_retries", "mode/direct", "mode/dispatch", "mode/prod", "prod/dead/policy_denied", "prod/delivered/", "fam/shape", "fam/addr", "fam/rules", "fam/chain"]
     es.need(ctx, c, keys, "C16")
 
 
 def run(ctx):
     vf.build_tool("hkv-egress")
     if ctx.quick:
-        max_redir, per, disp_every, timeout = 3, 3, 11, 300
+        max_redir, per, disp_every, prod_every, timeout = 3, 3, 11, 131, 300
     else:
-        max_redir, per, disp_every, timeout = 5, 24, 3, 1500
+        max_redir, per, disp_every, prod_every, timeout = 5, 24, 3, 17, 1500
     consts = {"Fams": FAMS}
     plain = {"MaxRedir": max_redir}
     rows_file = os.path.join(ctx.scratch, "egress-rows.ndjson")
     # MC runs beside GEN + execution; both are joined before trace validation takes all cores
-    with cf.ThreadPoolExecutor(max_workers=1) as ex:
+    with cf.ThreadPoolExecutor(max_workers=2) as ex:
         mc = ex.submit(es.mc_table, ctx, "egress", "EgressMC", consts, plain, INVARIANTS, timeout)
         nrows = es.gen_rows(ctx, "egress", "EgressMC", consts, plain, rows_file, timeout=timeout)
+        # a sample through the production wiring (one row at a time) beside the main execution
+        pr = ex.submit(execute_prod, ctx, rows_file, prod_every, timeout)
         info = execute(ctx, rows_file, per, disp_every, timeout)
+        pinfo = pr.result()
         mc.result()
+    for k, v in pinfo["counters"].items():
+        info["counters"][k] = info["counters"].get(k, 0) + v
+    info["events"] += pinfo["events"]
     run_rest(ctx, nrows, info, timeout)
+
+
+def execute_prod(ctx, rows_file, every, timeout):
+    out = os.path.join(ctx.shm, "egress-trace-prod")
+    return json.loads(vf.tool("hkv-egress", ["prod", "-rows", rows_file, "-out", out, "-every", str(every), "-seed", str(ctx.seed),
+                                            "-scratch", ctx.shm], timeout=timeout).strip().splitlines()[-1])
 
 
 def execute(ctx, rows_file, per, disp_every, timeout):
     out = os.path.join(ctx.shm, "egress-trace")
-    return json.loads(vf.tool("hkv-egress", ["run", "-rows", rows_file, "-out", out, "-shards", str(vf.NCPU), "-per", str(per),
+    return json.loads(vf.tool("hkv-egress", ["run", "-rows", rows_file, "-out", out, "-shards", str(es.WORKERS), "-per", str(per),
                                             "-seed", str(ctx.seed), "-dispatch-every", str(disp_every)], timeout=timeout).strip().splitlines()[-1])
 
 
 def run_rest(ctx, nrows, info, timeout):
     ctx.count("abstract_rows", nrows)
     out = os.path.join(ctx.shm, "egress-trace")
-    shards = vf.NCPU
+    shards = es.WORKERS
     if info["rows"] != nrows:
         raise vf.Infra("hkv-egress executed %d rows, TLC generated %d" % (info["rows"], nrows))
     for k, v in info["counters"].items():
         ctx.count(k, v)
     ctx.cov["schedules_executed"] += info["events"]
     ctx.cov["traces_validated_against_impl"] += info["events"]
-    files = es.shard_files(out, shards)
+    files = es.shard_files(out, shards) + es.shard_files(os.path.join(ctx.shm, "egress-trace-prod"), 1)
     res = vf.tv_run(ctx, files, module="EgressTrace", name="tv-egress", timeout=timeout)
     total = sum(r["total"] for r in res)
     if total != info["events"]:
@@ -220,7 +239,9 @@ def run_rest(ctx, nrows, info, timeout):
         "odd IPv4 notations are host names to the policy: the stub resolver answers them like getaddrinfo (the denoted address) or "
         "with an error (pure-Go resolver)",
         "the policy is built by config.Parse + config.Compile from a generated Hookaidofile and copied field by field as "
-        "app.mapEgressRules does (that function is unexported)",
+        "app.mapEgressRules does (that function is unexported); a sample of rows additionally runs through the production wiring of "
+        "app.VerifBoot(HTTPDispatcher) - policy, deliverer and routes built by run.go's own code - with http.DefaultTransport replaced by the "
+        "recorder and net.DefaultResolver by a pure-Go resolver talking to an in-process DNS responder",
         "a lookup failure under a policy that needs addresses must send nothing; whether it is reported as policy denial or as a "
         "retryable error is left open"]
     vf.write_evidence(ctx, "model_checking", RULE, exhaustive=True)
